@@ -32,6 +32,7 @@ package mat
 
 //@ func Dense.Dims props: C04 C07(safety)
 //@ requires wfDense(m)
+//@ reads nothing
 //@ ensures r == m.mat.Rows && c == m.mat.Cols
 
 //@ func Dense.At props: C04 C07(safety)
@@ -45,6 +46,7 @@ package mat
 
 //@ func Dense.at props: C04 C07(safety)
 //@ requires wfDense(m) && 0 <= i && i < m.mat.Rows && 0 <= j && j < m.mat.Cols
+//@ reads m.mat.Data[i*m.mat.Stride+j]
 //@ ensures same(result, m.mat.Data[i*m.mat.Stride+j])
 
 //@ func Dense.Set props: C04 C07(safety)
@@ -219,6 +221,125 @@ package mat
 //@ writes v.mat.Data[k] for k in 0..cap(v.mat.Data)
 //@ ensures result1 == nil ==> wfVD(v) && v.mat.N > 0 && v.mat.N == len(v.mat.Data)
 //@ loop 1: invariant n <= 40+8*it && n >= 0
+
+// ---- binary encoding (C16) -------------------------------------------------------
+
+// Contracts of the encoders of io.go, from the layout documented at
+// Dense.MarshalBinary / VecDense.MarshalBinary. What the engine's model reaches:
+// the size of the encoding, the absence of faults and of silent overflow, the
+// cells of the receiver that are read (exactly its elements, through Stride /
+// Inc) and the write offsets 40 + 8*(i*Cols+j). What it does not reach (see the
+// notes below): the bytes themselves, i.e. the header fields, the payload values
+// and the round trip through the decoders.
+//
+// The encoders have value receivers: wfDenseV / wfVDV are wfDense / wfVD without
+// the nil test (the engine rejects "m != nil" on a struct value: "OUTSIDE-SUBSET:
+// nil comparison of {{m.mat.Rows,...").
+
+//@ spec wfDenseV(m Dense) bool = m.mat.Rows >= 0 && m.mat.Cols >= 0 && m.mat.Rows <= m.capRows && m.mat.Cols <= m.capCols &&
+//@   ((m.mat.Stride == 0 && m.mat.Rows == 0 && m.mat.Cols == 0) ||
+//@    (m.mat.Rows > 0 && m.mat.Cols > 0 && m.mat.Stride >= m.mat.Cols && m.mat.Stride >= m.capCols &&
+//@     len(m.mat.Data) >= (m.mat.Rows-1)*m.mat.Stride+m.mat.Cols &&
+//@     cap(m.mat.Data) >= (m.capRows-1)*m.mat.Stride+m.capCols))
+//@ spec wfVDV(v VecDense) bool = (v.mat.Inc == 0 && v.mat.N == 0) || (v.mat.N > 0 && v.mat.Inc >= 1 && len(v.mat.Data) == (v.mat.N-1)*v.mat.Inc+1)
+
+// storage.marshalBinaryTo is binary.Write into a private buffer followed by one
+// w.Write. encoding/binary.Write and (*bytes.Buffer).Bytes have no model
+// ("OUTSIDE-SUBSET: call to encoding/binary.Write: no contract and no body"), so
+// the helper cannot be verified; it is TRUSTED with the only fact its callers
+// need, which is assumption A8 (0 <= n <= len(p) for io.Writer.Write) applied to
+// the headerSize bytes of the header, and with "reads nothing" (it reads its
+// value receiver only).
+// LIMITATION: the bytes the helper sends through w are invisible to the engine.
+// In MarshalBinary w is bytes.NewBuffer(buf[:0]) (modelled as an opaque object
+// that only remembers a length), so the engine still believes buf[0:40] to hold
+// the zeroes of make: the probe clause "result1 == nil ==> result0[4] == 0"
+// VERIFIES although the byte is 'G', and "result0[4] == 71" fails. Therefore no
+// clause about result0[0..40) may be stated on top of this model, and none is.
+
+//@ trusted storage.marshalBinaryTo
+//@ reads nothing
+//@ ensures 0 <= result0 && result0 <= headerSize
+
+// MarshalBinary: no fault for any well-formed receiver, also for views with
+// Stride > Cols and vectors with Inc > 1; the receiver's elements are not
+// written and only its elements are read (reads: cell (i, j) is
+// Data[i*Stride+j], element i of a vector is Data[i*Inc]); on a nil error the
+// result is a new slice of exactly 40 + 8*Rows*Cols (40 + 8*N) bytes. Element
+// (i, j) is stored at offset 40 + 8*(i*Cols+j) (loop invariants on p), inside
+// the result (slice obligations). overflow: checked makes every int64 / int
+// operation of the size computation and of p an obligation: under wfDense / wfVD
+// and the engine's allocation bound (cap([]float64) <= 2^53) the size cannot
+// wrap on a 64-bit int, hence "return nil, errTooBig" is unreachable
+// (dead-return-ok) and the only error is the one of the header write.
+//
+// FINDING (round trip, empty value): an empty receiver (Rows == Cols == 0, or
+// N == 0) is encoded without error as a bare 40-byte header (Rows = Cols = 0;
+// Rows = 0, Cols = 1 for VecDense), and both decoders refuse exactly this
+// output with ErrZeroLength: var e, d mat.Dense; b, _ := e.MarshalBinary();
+// d.UnmarshalBinary(b) == ErrZeroLength (same for MarshalBinaryTo /
+// UnmarshalBinaryFrom and for VecDense). "The decoder accepts every encoder
+// output" holds only for Rows > 0 (N > 0). Not documented on either side.
+// FINDING (documentation of the decoders): "ErrShape is returned if the number
+// of rows or columns is negative"; the code returns errBadSize ("mat: invalid
+// dimension") for Dense and for VecDense rows, ErrShape only for VecDense
+// Cols != 1.
+//
+// LEFT OUT (engine model, not the code):
+//  - header bytes (Version, 'G', 'F', 'A', 0, Rows, Cols, 0, 0): see LIMITATION
+//    above; the mutation "Rows and Cols swapped in the header" is NOT detected.
+//  - payload values: binary.LittleEndian.PutUint64 is modelled as a havoc of the 8
+//    bytes, unrelated to its argument and to LittleEndian.Uint64 (bin_Uint64, an
+//    uninterpreted function of the whole byte memory), and neither function may
+//    occur in a clause: "OUTSIDE-SUBSET: spec: call
+//    binary.LittleEndian.Uint64(result0[8:16])", "OUTSIDE-SUBSET: spec: call
+//    math.Float64bits(m.mat.Data[k])".
+//  - round trip: missing axioms are (1) bin_Uint64(mem after PutUint64(s, x),
+//    s) == x with a frame rule for the other bytes, (2) f64frombits(f64bits(x))
+//    same as x (both functions are declared in lib.go without any relation),
+//    (3) binary.Read decoding the bytes of its reader (the decoders' header is
+//    "arbitrary field values"), (4) a content model of bytes.Buffer / io.Writer.
+
+//@ func Dense.MarshalBinary props: C16
+//@ overflow: checked
+//@ option dead-return-ok
+//@ requires wfDenseV(m) && headerSize == 40 && sizeFloat64 == 8
+//@ writes nothing
+//@ reads m.mat.Data[i*m.mat.Stride+j] for i in 0..m.mat.Rows, j in 0..m.mat.Cols
+//@ ensures result1 == nil ==> len(result0) == 40+8*m.mat.Rows*m.mat.Cols && fresh(result0)
+//@ loop 1: invariant p == 40+8*i*c && 0 <= i && i <= r
+//@ loop 2: invariant p == 40+8*(i*c+j) && 0 <= j && j <= c && 0 <= i && i < r
+
+//@ func VecDense.MarshalBinary props: C16
+//@ overflow: checked
+//@ option dead-return-ok
+//@ requires wfVDV(v) && headerSize == 40 && sizeFloat64 == 8
+//@ writes nothing
+//@ reads v.mat.Data[i*v.mat.Inc] for i in 0..v.mat.N
+//@ ensures result1 == nil ==> len(result0) == 40+8*v.mat.N && fresh(result0)
+//@ loop 1: invariant p == 40+8*i && 0 <= i && i <= v.mat.N
+
+// MarshalBinaryTo: no fault, the receiver is not written, only its elements are
+// read, the byte count cannot overflow and never exceeds the size of the
+// encoding. (Equality on a nil error would need io.Writer's rule "n < len(p)
+// implies err != nil", which assumption A8 does not include.)
+
+//@ func Dense.MarshalBinaryTo props: C16
+//@ overflow: checked
+//@ requires wfDenseV(m) && headerSize == 40 && sizeFloat64 == 8
+//@ writes nothing
+//@ reads m.mat.Data[i*m.mat.Stride+j] for i in 0..m.mat.Rows, j in 0..m.mat.Cols
+//@ ensures 0 <= result0 && result0 <= 40+8*m.mat.Rows*m.mat.Cols
+//@ loop 1: invariant 0 <= n && n <= 40+8*i*c && 0 <= i && i <= r
+//@ loop 2: invariant 0 <= n && n <= 40+8*(i*c+j) && 0 <= j && j <= c && 0 <= i && i < r
+
+//@ func VecDense.MarshalBinaryTo props: C16
+//@ overflow: checked
+//@ requires wfVDV(v) && headerSize == 40 && sizeFloat64 == 8
+//@ writes nothing
+//@ reads v.mat.Data[i*v.mat.Inc] for i in 0..v.mat.N
+//@ ensures 0 <= result0 && result0 <= 40+8*v.mat.N
+//@ loop 1: invariant 0 <= n && n <= 40+8*i && 0 <= i && i <= v.mat.N
 
 // ---- VecDense element-wise methods, continued (C04 / C05 / C07) -------------------
 
@@ -543,6 +664,7 @@ package mat
 //@ func VecDense.at props: C04 C07(safety)
 //@ requires wfVD(v) && 0 <= i && i < v.mat.N
 //@ writes nothing
+//@ reads v.mat.Data[i*v.mat.Inc]
 //@ ensures same(result, v.mat.Data[i*v.mat.Inc])
 
 // (setVec is left without a contract, callers inline the single store. With the block
